@@ -355,3 +355,21 @@ func planC01(tier string, seed uint64) *Plan {
 	p.Phases = []Phase{{Name: "hostile-content", Groups: groups}}
 	return p
 }
+
+func init() { plans["C07"] = planC07 }
+
+func planC07(tier string, seed uint64) *Plan {
+	p := &Plan{
+		Level: "exploration",
+		Rule: "seeded settled UI sessions over generated towns (threads with ancestors and replies, actors with paged outboxes, multi-author posts, audiences, empty collections, feeds from the configuration): 4-34 actions from the documented keymap (j k g h l space c r a o p b, numbers incl. 0/00/20 digits/out-of-range then . Enter Esc Backspace, typed and mistyped :open/:feed commands, bytes outside the keymap) are applied to ui.State and to an executable model of the keymap; after every action the frame's highlighted item, its neighbours and the status line must be the ones the model predicts; a second, unjudged family (arbitrary bytes, commands on odd targets, network faults) is judged for crashes and wedges only. Non-trivial = every run; distinct = distinct (world tape, event order) fingerprint.",
+		Assumptions: []string{"inputs the keymap leaves open (keys other than digits . Enter Esc Backspace while a number is being typed) end the judged part of a run", "preload_amount >= 1 (with 0 the loaded window is visible and the keymap does not describe it)"},
+	}
+	n, jobs, count := 16, 2, 40
+	if tier == "thorough" {
+		n, jobs, count = 32, 4, 500
+	}
+	groups := randomPlan("ui_keymap", seed, uiCfgs(seed, n, nil), jobs, count, "stub")
+	groups = append(groups, randomPlan("ui_keymash", seed+9, uiCfgs(seed+9, n/2, nil), jobs, count/2, "stub")...)
+	p.Phases = []Phase{{Name: "keymap-sessions", Groups: groups}}
+	return p
+}
